@@ -1050,6 +1050,9 @@ class General(productmd.common.MetadataBase):
         # HACK: if there are more variants and main_variant is None,
         # use the first variant if
         if main_variant is None:
+            if not variants:
+                # a tree without variants (e.g. openSUSE): nothing more to mirror
+                return
             variant = variants[0]
         else:
             variant = main_variant
